@@ -74,6 +74,9 @@ func main() {
 			}
 		}()
 		fn(r)
+		if *tier == "thorough" {
+			runMutants(r, *verif, *repo, *prop)
+		}
 	}()
 	os.Exit(r.Finish(*out))
 }
